@@ -72,6 +72,22 @@ def run(db, tier):
         rep.check(ok, "R-REUSE-GUARD", key, "%s:%d" % (f.file, t["ln"]),
                   "destination reused for operand #%s only if operand #%s does not read it" % (operand, [g for g in (param_of(gt["a"][0]) for _, gt in guards)][:1]),
                   "the destination register is reused for a sub-expression although the other operand may still read it: " + detail)
+    # the reused destination must have the type of the value computed into it
+    for g_, nm in ((f, "lower_assign_direct_binop"), (db.fn(S + "lower_assign_direct_unop"), "lower_assign_direct_unop")):
+        dg_ = flow.Defs(g_)
+        for i, (bi, t) in enumerate(flow.calls_to(g_, "SingleSubLowerer::<'_, '_>::compute_temporary_expr")):
+            gs = flow.bool_call_guards(g_, bi, "PartialEq::eq", dg_, dominate=False)
+            ty_ok = False
+            for gb, gt in gs:
+                sa = flow.deep_sources(g_, dg_, gt["a"][0])
+                sb = flow.deep_sources(g_, dg_, gt["a"][1])
+                both = sa | sb
+                if any(x[0] == "field" and x[2] == "tmp_ty" for x in both) and any(x[0] == "call" and x[1].endswith(("binop_ty", "unop_ty")) for x in both):
+                    ty_ok = True
+            rep.check(ty_ok, "R-REUSE-GUARD", "%s|reuse-%d|type" % (nm, i + 1), "%s:%d" % (g_.file, t["ln"]),
+                      "the destination is reused only if the temporary's type equals the type of the assigned expression",
+                      "the destination register is reused for a sub-expression without comparing the temporary's type with the type of the "
+                      "right-hand side: a value of the other type (e.g. a float intermediate of an int-valued comparison) is computed into it")
     u = db.fn(S + "lower_assign_direct_unop")
     rep.fn(u)
     us = flow.calls_to(u, "compute_temporary_expr")
@@ -445,6 +461,31 @@ def _alternatives(db, rep):
     g, arm, pu = arm_pushes("lower_assign_direct_unop_intrinsic", "UnOp::Intrinsic")
     sh = shape(pu, ("lowered_var", "b"))
     rep.check(sh == [("outputs", "lowered_var"), ("plain_args", "b")], "R-ALT", "emit|unop intrinsic", "%s:%d" % (g.file, arm["ln"]), "out=v, args=(x)", "found %s" % sh)
+    # conditional jumps: comparison operands in source order (both the single-instruction and the two-part form)
+    for variant, want in (("CondJmp::Intrinsic", [("plain_args", "data_a"), ("plain_args", "data_b")]),
+                          ("CondJmp::TwoPart", [("plain_args", "data_a"), ("plain_args", "data_b")])):
+        g, arm, pu = arm_pushes("lower_cond_jump_intrinsic", variant)
+        sh = shape(pu, ("data_a", "data_b"))
+        rep.check(sh == want, "R-ALT", "emit|cond jump %s" % variant.rsplit("::", 1)[-1], "%s:%d" % (g.file, arm["ln"]), "args=(a, b)",
+                  "a conditional jump must compare its operands in source order (a, b); found %s" % sh)
+    # every label the lowerer creates itself carries the time of the statement being lowered
+    n_lab = 0
+    for g in sorted(db.fns.values(), key=lambda x: x.id):
+        if g.gen or g.closure or not g.id.startswith(S) or g.hir is None:
+            continue
+        Lg2 = hirq.lets(g)
+        for n in hir_walk(g.hir):
+            if n.get("k") == "Struct" and n.get("p", "").endswith("LowerStmt::Label"):
+                n_lab += 1
+                te = dict((nm, e) for nm, e in n["fs"]).get("time")
+                fe = hirq.features(g, te, {}) if te is not None else set()
+                okl = (hirq.has_local(fe, "stmt_data") and ("field", "time") in fe and not any(t_ == "lit" for t_, _ in fe)) or \
+                      (any(t_ == "local" for t_, _ in fe) and not any(t_ == "lit" for t_, _ in fe) and not hirq.has_local(fe, "stmt_data") and "gensym" not in str(n))
+                rep.check(okl, "R-ALT", "label-time|%s|%d" % (g.id.rsplit("::", 1)[-1], n_lab), "%s:%d" % (g.file, n["ln"]),
+                          "the label's time is the statement's time", "a label emitted while lowering does not carry the time of the statement being lowered "
+                          "(instructions after it inherit the wrong time)")
+    rep.floor("labels created by the stackless lowerer", n_lab, 3)
+
     # binop: out, a, b and operand positions preserved through the elaboration steps
     g = db.fn(S + "lower_assign_direct_binop")
     Lg = hirq.lets(g)
